@@ -39,11 +39,12 @@ const (
 	mIntSet
 	mEmptyOID
 	mWrapTrail
+	mEmptyValid
 	mOpCount
 )
 
 var mutNames = []string{"retag", "len-delta", "len-nonminimal", "len-indefinite", "swap", "dup", "delete", "content", "int-nonminimal", "empty",
-	"latin", "bad-bool", "bit-pad", "odd-time", "flip", "truncate", "insert", "high-tag", "arc80", "append-byte", "oid-replace", "int-set", "empty-oid", "wrap-trail"}
+	"latin", "bad-bool", "bit-pad", "odd-time", "flip", "truncate", "insert", "high-tag", "arc80", "append-byte", "oid-replace", "int-set", "empty-oid", "wrap-trail", "empty-valid"}
 
 // framingOps change the outer framing of the input (they are left out where an input must stay one TLV).
 var framingOps = map[int]bool{mTruncate: true, mAppendByte: true}
@@ -90,7 +91,7 @@ var opTable = func() []int {
 		switch op {
 		case mRetag, mLenDelta, mLenNonMinimal, mLenIndefinite, mEmpty, mTruncate, mHighTag, mAppendByte, mContent:
 			w = 1
-		case mIntNonMinimal, mLatin, mEmptyOID:
+		case mIntNonMinimal, mLatin, mEmptyOID, mEmptyValid:
 			w = 5
 		}
 		for i := 0; i < w; i++ {
@@ -454,6 +455,37 @@ func applyMuts(d []byte, muts []Mut) ([]byte, []string) {
 		case mOIDReplace:
 			n := pick(nodes, m.Node, derx.TagOID)
 			mt.setContent(n, derx.OIDContent(interestingOIDs[m.A%len(interestingOIDs)]))
+		case mEmptyValid:
+			// the smallest well-formed value of the node's type: BIT STRING 03 01 00, OCTET STRING 04 00,
+			// SEQUENCE / SET / constructed context tag with no elements, INTEGER 0, BOOLEAN false, empty string.
+			// Three times out of four the node is taken from inside a wrapped DER value (extension values, RSA keys).
+			var inner []*derx.Node
+			for _, x := range nodes {
+				if x.Children != nil && !x.Constructed() {
+					for _, k := range x.Children {
+						inner = append(inner, k.All()...)
+					}
+				}
+			}
+			var n *derx.Node
+			if len(inner) > 0 && m.A%4 != 0 {
+				n = inner[mix(m.Node)%len(inner)]
+			} else {
+				n = pick(nodes, m.Node)
+			}
+			switch {
+			case len(n.ID) == 1 && n.ID[0] == derx.TagBitString:
+				mt.setContent(n, []byte{0})
+			case len(n.ID) == 1 && (n.ID[0] == derx.TagInteger || n.ID[0] == derx.TagEnumerated || n.ID[0] == derx.TagBoolean):
+				mt.setContent(n, []byte{0})
+			case len(n.ID) == 1 && (n.ID[0] == derx.TagUTCTime || n.ID[0] == derx.TagGenTime || n.ID[0] == derx.TagNull):
+				done = false
+			case n.Constructed():
+				delete(mt.bitWrap, n)
+				n.Content, n.Children = []byte{}, []*derx.Node{}
+			default:
+				mt.setContent(n, []byte{})
+			}
 		case mWrapTrail:
 			// trailing element inside an OCTET STRING / BIT STRING that wraps DER (extension values, RSA keys),
 			// or - when the input has none - at the end of any constructed node
